@@ -427,8 +427,14 @@ tokenise(const char *ln, size_t lz)
 /* we expect \t separation */
 	struct lst_s *r;
 
-	if (UNLIKELY((r = malloc(sizeof(*r) + lz)) == NULL)) {
+	if (UNLIKELY((r = malloc(sizeof(*r) + lz + 1U)) == NULL)) {
 		return NULL;
+	}
+	/* slot 0 (no such weekday or month) and the slots beyond the
+	 * last token get the empty string behind the line */
+	r->str[lz] = '\0';
+	for (size_t j = 0U; j < countof(r->s); j++) {
+		r->s[j] = r->str + lz;
 	}
 	/* just have him point to something */
 	r->s[1U] = r->str;
@@ -449,7 +455,6 @@ tokenise(const char *ln, size_t lz)
 			}
 		}
 	}
-	r->s[0U] = r->s[13U];
 	return r;
 }
 
